@@ -38,14 +38,14 @@ Fixpoint assoc (k : str) (l : list (str * str)) : option str :=
     (charset, collation) the two comparisons see ("" = attribute absent).  The two completions
     exclude each other: a lone collation gets its charset if the table knows it, a lone charset
     its default collation. *)
-Definition mysql_fill (v : mysql_variant) (T : str) : str * str :=
-  let cs := fld 1 T in
-  let co := fld 2 T in
+Definition fill_pair (v : mysql_variant) (p : str * str) : str * str :=
+  let '(cs, co) := p in
   match cs, co with
   | [], _ :: _ => (match assoc co (mv_co2ch v) with Some x => x | None => [] end, co)
   | _ :: _, [] => (cs, match assoc cs (mv_ch2co v) with Some x => x | None => [] end)
   | _, _ => (cs, co)
   end.
+Definition mysql_fill (v : mysql_variant) (T : str) : str * str := fill_pair v (fld 1 T, fld 2 T).
 
 (** [columnCharsetChanged] (k = 1) / [columnCollateChanged] (k = 2) *)
 Definition mysql_cs_changed_v (v : mysql_variant) (k : nat) (from to : column) : bool :=
